@@ -162,6 +162,10 @@ def check_values(m, text, options):
             cmp('geometry-radius', row['radius'], float(p.geobj.r_orig), tol_fixed(p.geobj.r_orig), bad)
             if row['no'] != p.idx + 1:
                 bad.append(dict(field='geometry-pulse-number', printed=row['no'], value=p.idx + 1))
+            # the image half of a pulse on a grounded end is printed as minus the tag of its object
+            for k, col in ((0, 'end1'), (1, 'end2')):
+                if p.ground[k] and row[col] != -g.tag:
+                    bad.append(dict(field='geometry-ground-end-column', printed=row[col], value=-g.tag))
     for w, g in zip(rep['wires'], m.geo):
         for j in range(3):
             cmp('wire-end', w['p1'][j], float(g.p1[j]), tol_fixed(g.p1[j]), bad)
